@@ -98,6 +98,8 @@ def harnesses(tier):
         if t.uses_x and not t.cmp_only:
             out.append(spec(t, 2, "real", weights=False, special=True))
     slots = cat.slot()
+    if tier == "thorough":
+        slots = slots[::2]  # thorough tier is sized by wall time (see DESIGN.md 7.1)
     if tier == "quick":
         slots = [t for i, t in enumerate(slots) if i % 4 == 1]
     for t in slots:
